@@ -44,6 +44,28 @@ def climb_traj(rng, long=False):
     return dict(scale=scale, use_yaw=False, start=start, segs=segs), scale
 
 
+def closed_form_traj(rng, kind=None):
+    """a climb whose altitude is really a polynomial of lower degree stored as a cubic: from rest at constant
+    acceleration (z0, z0, z0+A/3, z0+A), deceleration to rest, or a linear climb (evenly spaced control points);
+    returns (trajectory, scale, A in stored units, kind)"""
+    scale = rng.choice([1, 1, 2])
+    z0 = rng.choice([0, 0, 8, 600, rng.randint(0, 300)])
+    A = 3 * rng.choice([27, 100, 1000, 333, 2500, rng.randint(10, 3000)])
+    kind = kind or rng.choice(["accel", "accel", "decel", "linear"])
+    if kind == "accel":
+        zs = [z0, z0 + A // 3, z0 + A]
+    elif kind == "decel":
+        zs = [z0 + 2 * A // 3, z0 + A, z0 + A]
+    else:
+        zs = [z0 + A // 3, z0 + 2 * A // 3, z0 + A]
+    segs = []
+    if rng.random() < 0.5:
+        segs.append(dict(dur=rng.choice([1000, 4000]), x=[rng.randint(-500, 500)], y=[], z=[], yaw=[]))
+    segs.append(dict(dur=rng.choice([2000, 4000, 10000]), x=[], y=[], z=zs, yaw=[]))
+    segs.append(dict(dur=5000, x=[], y=[], z=[min(zs[-1] + 1000, 32767)], yaw=[]))
+    return dict(scale=scale, use_yaw=False, start=[0, 0, z0, 0], segs=segs), scale, A, kind
+
+
 def landing_traj(rng, long=False):
     """arbitrary flight followed by 0..4 vertical descending segments with horizontal jitter; long: the flight is
     preceded by enough segments to put the final run beyond byte offset 65536 of the block"""
